@@ -1031,13 +1031,24 @@ def live_ops(ctx, env, st0):
     else:
         vals = [v for v in vals if v >= st0["nice"]]
     if ctx.tier == "quick":
-        vals = vals[:20] + [-20, 19, 20, -21]
+        # -1 is the one value at which getpriority(2)'s result coincides with its error sentinel
+        vals = vals[:20] + [-20, 19, 20, -21, -1, -2, 0, -1]
         if not env["can_lower_nice"]:
             vals = sorted(v for v in vals if v >= st0["nice"])
     for v in vals:
         ops += [op(T, R_nice(v)), op(T, R_nice())]
     ops += [op(T, R_nice(2**31))]
     return ops
+
+
+def poison_errno():
+    """Leave a stale non-zero errno (ENOENT) in the calling thread, as any earlier failed syscall of the
+    application would: a native getter that tells an error from a legitimate -1 by looking at errno must have
+    cleared it itself (seeded C18-1: `errno = 0` dropped before getpriority(2))."""
+    try:
+        os.stat("/nonexistent-psv-c18/x")
+    except OSError:
+        pass
 
 
 def check_live(ctx, res):
@@ -1069,6 +1080,7 @@ def check_live(ctx, res):
             if "bad" in m:
                 raise RuntimeError("driver rejected %r: %s" % (o, m))
             try:
+                poison_errno()
                 out = canon_ok(ps, o["req"], call_front(ps, proc, o["req"]))
             except BaseException as e:  # noqa: BLE001
                 if isinstance(e, (KeyboardInterrupt, SystemExit)):
